@@ -11,15 +11,169 @@ the real ast on every run):
     RIGHT) and of `evaluate` (truth value = value != 0);
   * an #elif/#else of a chain that already selected a branch is not evaluated
     (contract of the associator closure, shared with C01).
-Bounded (native/C02.py, labelled so): operator semantics, conversions, literals,
-character constants, defined, identifiers against a C reference evaluator.
+  * operator semantics (added later): `__wrap`, `__apply_unary_op` (4 operators) and
+    `__apply_binary_op` (18 operators) are proved, for ALL operands of both types,
+    to return the value and type ISO C defines for intmax_t / uintmax_t arithmetic
+    (usual arithmetic conversions, 0/1 results, truncating / and %, shifts on the
+    promoted left operand), whenever C defines the result.  The spec is stated over
+    the integers (conversion = reduction modulo 2**64, 6.3.1.3); Python's & | ^ are
+    related to abstract 64-bit operators by assumption A2b (their bit-level meaning is
+    not part of the proof, the native check covers it).  A solver counterexample is
+    decoded into operands and replayed on the real function.
+Bounded (native/C02.py, labelled so): literals, character constants, defined,
+identifiers, ?: and the parser's recursion against a C reference evaluator.
 """
 import ast
 
+import z3
+
 import contracts.C01 as C01     # noqa: F401  (associator: #elif not evaluated after a taken branch)
+from pyvc.contract import contract
+from pyvc.values import BOOL, INT, VStr
+from pyvc import pyint
 
 LEVEL = "other"
 UNITS = ["codebasin.finder:ParserState.associate.<locals>.associator"]
+
+# ------------------------------------------------------------------------------------------
+# Operator semantics: ISO C arithmetic on intmax_t / uintmax_t, stated over the integers.
+# A run-time value is (unsigned?, mathematical value) with the value in the type's range.
+# ------------------------------------------------------------------------------------------
+EE = "codebasin.preprocessor:ExpressionEvaluator."
+NP = pyint.NPINT
+M64, IMIN, IMAX = 2 ** 64, -(2 ** 63), 2 ** 63 - 1
+
+
+def _conv(x, U):
+    """conversion to the common type (6.3.1.3): modulo 2**64 when the target is unsigned"""
+    return z3.If(U, x % M64, x)
+
+
+def _tdiv(a, b):
+    """quotient with the fractional part discarded (6.5.5p6), from floor division of magnitudes"""
+    return z3.If(a >= 0, z3.If(b > 0, a / b, -(a / (-b))), z3.If(b > 0, -((-a) / b), (-a) / (-b)))
+
+
+def c_binary(op, lu, lv, ru, rv):
+    """(defined in C, result unsigned?, constraint on the result value v)"""
+    one = lambda c: z3.If(c, 1, 0)      # noqa: E731
+    F = z3.BoolVal(False)
+    if op == "||":
+        return z3.BoolVal(True), F, lambda v: v == one(z3.Or(lv != 0, rv != 0))
+    if op == "&&":
+        return z3.BoolVal(True), F, lambda v: v == one(z3.And(lv != 0, rv != 0))
+    if op in ("<<", ">>"):
+        U = lu                              # the type of the promoted left operand (6.5.7p3)
+        count_ok = z3.And(rv >= 0, rv < 64)
+        p = pyint.pow2(rv)
+        if op == "<<":
+            return (z3.And(count_ok, z3.Or(U, z3.And(lv >= 0, lv * p <= IMAX))), U,
+                    lambda v: v == z3.If(U, (lv * p) % M64, lv * p))
+        return z3.And(count_ok, z3.Or(U, lv >= 0)), U, lambda v: v == lv / p
+    U = z3.Or(lu, ru)                       # usual arithmetic conversions (6.3.1.8)
+    a, b = _conv(lv, U), _conv(rv, U)
+    rel = {"==": a == b, "!=": a != b, "<": a < b, "<=": a <= b, ">": a > b, ">=": a >= b}
+    if op in rel:
+        return z3.BoolVal(True), F, lambda v: v == one(rel[op])
+    if op in ("+", "-", "*"):
+        m = {"+": a + b, "-": a - b, "*": a * b}[op]
+        return z3.Or(U, z3.And(m >= IMIN, m <= IMAX)), U, lambda v: v == z3.If(U, m % M64, m)
+    if op in ("/", "%"):
+        dfn = z3.And(b != 0, z3.Or(U, z3.Not(z3.And(a == IMIN, b == -1))))
+        q = _tdiv(a, b)
+        return dfn, U, (lambda v: v == q) if op == "/" else (lambda v: v == a - q * b)
+    if op in ("&", "|", "^"):
+        f = pyint.OP64[op]
+        return z3.BoolVal(True), U, lambda v: v % M64 == f(a % M64, b % M64)    # with valid(v): determines v
+    raise KeyError(op)
+
+
+def c_unary(op, u, x):
+    F = z3.BoolVal(False)
+    if op == "+":
+        return z3.BoolVal(True), u, lambda v: v == x
+    if op == "-":
+        return z3.Or(u, x != IMIN), u, lambda v: v == z3.If(u, (-x) % M64, -x)
+    if op == "!":
+        return z3.BoolVal(True), F, lambda v: v == z3.If(x == 0, 1, 0)
+    if op == "~":                           # every bit of the 64-bit representation flipped: (2**64-1) - rep
+        return z3.BoolVal(True), u, lambda v: v % M64 == (M64 - 1) - (x % M64)
+    raise KeyError(op)
+
+
+def _valid_u(U, v):
+    return z3.If(U, z3.And(v >= 0, v < M64), z3.And(v >= IMIN, v <= IMAX))
+
+
+w = contract(EE + "__wrap", props=["C02"])
+w.param("value", INT).param("unsigned", BOOL).result(NP)
+
+
+@w.ensures
+def _(A, R):
+    r = R.result
+    return [("result-has-the-requested-type", pyint.unsigned(r) == A.unsigned.t),
+            ("result-in-range-of-its-type", pyint.valid(r)),
+            ("result-congruent-to-value-mod-2^64", pyint.val(r) % M64 == A.value.t % M64)]
+
+
+BINARY_OPS = ["||", "&&", "|", "^", "&", "==", "!=", "<", "<=", ">", ">=", "<<", ">>", "+", "-", "*", "/", "%"]
+UNARY_OPS = ["-", "+", "!", "~"]
+_OPNAME = {"||": "lor", "&&": "land", "|": "or", "^": "xor", "&": "and", "==": "eq", "!=": "ne", "<": "lt", "<=": "le",
+           ">": "gt", ">=": "ge", "<<": "shl", ">>": "shr", "+": "add", "-": "sub", "*": "mul", "/": "div", "%": "rem",
+           "!": "not", "~": "compl"}
+
+
+def _binary_contract(op):
+    c = contract(EE + "__apply_binary_op#" + _OPNAME[op], props=["C02"])
+    c.param("op", VStr(z3.StringVal(op))).param("lhs", NP).param("rhs", NP).result(NP)
+
+    def parts(A):
+        return c_binary(op, pyint.unsigned(A.lhs), pyint.val(A.lhs), pyint.unsigned(A.rhs), pyint.val(A.rhs))
+
+    @c.requires
+    def _(A):
+        return [("lhs-in-range-of-its-type", pyint.valid(A.lhs)), ("rhs-in-range-of-its-type", pyint.valid(A.rhs)),
+                ("defined-in-C", parts(A)[0])]
+
+    @c.ensures
+    def _(A, R):
+        _, U, want = parts(A)
+        r = R.result
+        return [(f"type-of-result/{op}", pyint.unsigned(r) == U),
+                (f"result-in-range-of-its-type/{op}", pyint.valid(r)),
+                (f"value==C({op})", want(pyint.val(r)))]
+    return c
+
+
+def _unary_contract(op):
+    c = contract(EE + "__apply_unary_op#" + _OPNAME.get(op, {"-": "neg", "+": "pos"}.get(op)), props=["C02"])
+    c.param("op", VStr(z3.StringVal(op))).param("operand", NP).result(NP)
+
+    def parts(A):
+        return c_unary(op, pyint.unsigned(A.operand), pyint.val(A.operand))
+
+    @c.requires
+    def _(A):
+        return [("operand-in-range-of-its-type", pyint.valid(A.operand)), ("defined-in-C", parts(A)[0])]
+
+    @c.ensures
+    def _(A, R):
+        _, U, want = parts(A)
+        r = R.result
+        return [(f"type-of-result/unary{op}", pyint.unsigned(r) == U),
+                (f"result-in-range-of-its-type/unary{op}", pyint.valid(r)),
+                (f"value==C(unary{op})", want(pyint.val(r)))]
+    return c
+
+
+_OPNAME_U = {"-": "neg", "+": "pos", "!": "not", "~": "compl"}
+UNITS.append(EE + "__wrap")
+for _op in BINARY_OPS:
+    UNITS.append(_binary_contract(_op).key)
+for _op in UNARY_OPS:
+    _OPNAME[_op] = _OPNAME_U[_op]
+    UNITS.append(_unary_contract(_op).key)
 
 # ISO C (6.5) binary operator precedence levels, higher binds tighter; all left associative
 C_TABLE = {"*": 10, "/": 10, "%": 10, "+": 9, "-": 9, "<<": 8, ">>": 8, "<": 7, "<=": 7, ">": 7, ">=": 7,
@@ -73,10 +227,15 @@ def extra_obligations(index, tier):
 
 
 ASSUMPTIONS = ["A9 the ISO C precedence table and the reference evaluator of native/C02.py are trusted specs",
-               "A3 numpy scalars only carry the operand type (int64/uint64); the arithmetic is done on Python integers"]
-NOT_COVERED = ["operator semantics / literal conversion / lexing are checked up to the stated bound only",
+               "A3 numpy scalars only carry the operand type (int64/uint64); the arithmetic is done on Python integers",
+               pyint.ASSUMED_NOTE,
+               "operator proofs: expressions whose value C leaves undefined or implementation-defined (division by zero, INT64_MIN/-1, "
+               "shift count outside [0,64), signed overflow, << of a negative or overflowing signed value, >> of a negative value) "
+               "are excluded by the precondition, as the property's quantifier says"]
+NOT_COVERED = ["literal conversion, character constants, ?: and the recursion of expression/primary/term are checked up to the stated bound only",
                "unsuffixed literals above INT64_MAX raise OverflowError (pinned by tests/failure): recorded finding",
                "macro expansion before evaluation (C03)"]
-EXPLANATION = ("Table, grouping and #elif obligations are discharged exactly on the real ast; the arithmetic itself is checked "
-               "against a C reference evaluator on every atom, every binary operator over boundary operands, every ordered operator "
-               "pair, ternary nesting and seeded random expressions (bounded).")
+EXPLANATION = ("Table, grouping and #elif obligations are discharged exactly on the real ast; the 22 operators and the wrap helper are "
+               "proved against the ISO C definitions for all operands (integers, z3); what composes them (literals, characters, ?:, the "
+               "recursive parser) is checked against a C reference evaluator on every atom, every binary operator over boundary "
+               "operands, every ordered operator pair, ternary nesting and seeded random expressions (bounded).")
